@@ -3,7 +3,7 @@
 # Confirms, in the agent's scratch worktree /tmp/seed-<ID>: demo FAILS with the patch, PASSES without it,
 # and the package's own tests give the same pass list with and without the patch.
 id=$1; pkg=$2; shift 2
-wt=/tmp/seed-$id; out=/tmp/seed-$id-out; export CARGO_TARGET_DIR=/tmp/seed-$id-target
+pre=${SEED_PREFIX:-seed}; wt=/tmp/$pre-$id; out=/tmp/$pre-$id-out; export CARGO_TARGET_DIR=/tmp/$pre-$id-target
 cd $wt || exit 9
 git diff --quiet -- . && git apply $out/patch.diff   # ensure patch applied
 echo "--- demo WITH patch (must fail)"
@@ -12,8 +12,8 @@ git apply -R $out/patch.diff || exit 8
 echo "--- demo WITHOUT patch (must pass)"
 cargo test --offline -p $pkg "$@" 2>&1 | grep -E "^test result|^test .*FAILED" | head -5
 echo "--- package tests WITHOUT patch"
-cargo test --offline --no-fail-fast -p $pkg 2>&1 | grep -E "^test .* \.\.\. (ok|FAILED)" | grep -v "verif_demo\|demo_c26" | sort > /tmp/seed-$id-base.txt
+cargo test --offline --no-fail-fast -p $pkg 2>&1 | grep -E "^test .* \.\.\. (ok|FAILED)" | grep -v "verif_demo\|demo_c26" | sort > /tmp/$pre-$id-base.txt
 git apply $out/patch.diff
 echo "--- package tests WITH patch"
-cargo test --offline --no-fail-fast -p $pkg 2>&1 | grep -E "^test .* \.\.\. (ok|FAILED)" | grep -v "verif_demo\|demo_c26\|kani_concrete" | sort > /tmp/seed-$id-patched.txt
-if diff -q /tmp/seed-$id-base.txt /tmp/seed-$id-patched.txt >/dev/null; then echo "SAME test outcomes ($(grep -c ' ok$' /tmp/seed-$id-base.txt) ok)"; else echo "DIFFERENT test outcomes"; diff /tmp/seed-$id-base.txt /tmp/seed-$id-patched.txt | head; fi
+cargo test --offline --no-fail-fast -p $pkg 2>&1 | grep -E "^test .* \.\.\. (ok|FAILED)" | grep -v "verif_demo\|demo_c26\|kani_concrete" | sort > /tmp/$pre-$id-patched.txt
+if diff -q /tmp/$pre-$id-base.txt /tmp/$pre-$id-patched.txt >/dev/null; then echo "SAME test outcomes ($(grep -c ' ok$' /tmp/$pre-$id-base.txt) ok)"; else echo "DIFFERENT test outcomes"; diff /tmp/$pre-$id-base.txt /tmp/$pre-$id-patched.txt | head; fi
